@@ -1669,8 +1669,15 @@ CMR_ERROR CMRspTestBinary(CMR* cmr, CMR_CHRMAT* matrix, bool* pisSeriesParallel,
   if (!reductions)
     CMR_CALL( CMRallocStackArray(cmr, &localReductions, matrix->numRows + matrix->numColumns) );
 
-  CMR_CALL( decomposeBinarySeriesParallel(cmr, matrix, reductions ? reductions : localReductions, SIZE_MAX,
-    &localNumReductions, preducedSubmatrix, pviolatorSubmatrix, NULL, stats, timeLimit) );
+  CMR_ERROR error = decomposeBinarySeriesParallel(cmr, matrix, reductions ? reductions : localReductions, SIZE_MAX,
+    &localNumReductions, preducedSubmatrix, pviolatorSubmatrix, NULL, stats, timeLimit);
+  if (error)
+  {
+    /* E.g., a timeout: release the local array before passing the error on. */
+    if (localReductions)
+      CMR_CALL( CMRfreeStackArray(cmr, &localReductions) );
+    return error;
+  }
 
   if (pisSeriesParallel)
     *pisSeriesParallel = (localNumReductions == matrix->numRows + matrix->numColumns);
@@ -1697,8 +1704,15 @@ CMR_ERROR CMRspDecomposeBinary(CMR* cmr, CMR_CHRMAT* matrix, bool* pisSeriesPara
   if (!reductions)
     CMR_CALL( CMRallocStackArray(cmr, &localReductions, matrix->numRows + matrix->numColumns) );
 
-  CMR_CALL( decomposeBinarySeriesParallel(cmr, matrix, reductions ? reductions : localReductions, maxNumReductions,
-    &localNumReductions, preducedSubmatrix, pviolatorSubmatrix, pseparation, stats, timeLimit) );
+  CMR_ERROR error = decomposeBinarySeriesParallel(cmr, matrix, reductions ? reductions : localReductions, maxNumReductions,
+    &localNumReductions, preducedSubmatrix, pviolatorSubmatrix, pseparation, stats, timeLimit);
+  if (error)
+  {
+    /* E.g., a timeout: release the local array before passing the error on. */
+    if (localReductions)
+      CMR_CALL( CMRfreeStackArray(cmr, &localReductions) );
+    return error;
+  }
 
   if (pisSeriesParallel)
     *pisSeriesParallel = (localNumReductions == matrix->numRows + matrix->numColumns);
@@ -1955,8 +1969,15 @@ CMR_ERROR CMRspTestTernary(CMR* cmr, CMR_CHRMAT* matrix, bool* pisSeriesParallel
   if (!reductions)
     CMR_CALL( CMRallocStackArray(cmr, &localReductions, matrix->numRows + matrix->numColumns) );
 
-  CMR_CALL( decomposeTernarySeriesParallel(cmr, matrix, reductions ? reductions : localReductions, SIZE_MAX,
-    &localNumReductions, preducedSubmatrix, pviolatorSubmatrix, NULL, stats, timeLimit) );
+  CMR_ERROR error = decomposeTernarySeriesParallel(cmr, matrix, reductions ? reductions : localReductions, SIZE_MAX,
+    &localNumReductions, preducedSubmatrix, pviolatorSubmatrix, NULL, stats, timeLimit);
+  if (error)
+  {
+    /* E.g., a timeout: release the local array before passing the error on. */
+    if (localReductions)
+      CMR_CALL( CMRfreeStackArray(cmr, &localReductions) );
+    return error;
+  }
 
   if (pisSeriesParallel)
     *pisSeriesParallel = (localNumReductions == matrix->numRows + matrix->numColumns);
@@ -1982,8 +2003,15 @@ CMR_ERROR CMRspDecomposeTernary(CMR* cmr, CMR_CHRMAT* matrix, bool* pisSeriesPar
   if (!reductions)
     CMR_CALL( CMRallocStackArray(cmr, &localReductions, matrix->numRows + matrix->numColumns) );
 
-  CMR_CALL( decomposeTernarySeriesParallel(cmr, matrix, reductions ? reductions : localReductions,
-    maxNumReductions, &localNumReductions, preducedSubmatrix, pviolatorSubmatrix, pseparation, stats, timeLimit) );
+  CMR_ERROR error = decomposeTernarySeriesParallel(cmr, matrix, reductions ? reductions : localReductions,
+    maxNumReductions, &localNumReductions, preducedSubmatrix, pviolatorSubmatrix, pseparation, stats, timeLimit);
+  if (error)
+  {
+    /* E.g., a timeout: release the local array before passing the error on. */
+    if (localReductions)
+      CMR_CALL( CMRfreeStackArray(cmr, &localReductions) );
+    return error;
+  }
 
   if (pisSeriesParallel)
     *pisSeriesParallel = (localNumReductions == matrix->numRows + matrix->numColumns);
